@@ -15,6 +15,7 @@ LEVEL = 'exploration'
 CASE_TIMEOUT = 90
 BATCH_SIZE = {'quick': 6, 'thorough': 24}
 REQUIRED_COUNTERS = ['direct_level_records', 'voted_records',
+                     'top_chains_of_two_or_more_levels',
                      'contract_choose_node_evaluations',
                      'hdf5_records_checked']
 RULE = ('same corpus as C01 (taxonomy shape x marker class x query x '
